@@ -1,2 +1,235 @@
-// Package c09: check for property C09 (see /verif/DESIGN.md §3 C09).
+// Package c09: `sort` and the sorting functions return a correctly ordered
+// permutation. Bounded exhaustive enumeration of record lists x flag
+// sequences on the real code (direct Transform calls for the bulk, in-process
+// `mlr` for the command line and the DSL), with predicate oracles: permutation
+// of byte-identical records, key-less records last in input order, identical
+// key texts contiguous and in input order, and every pair of output groups
+// ordered under a reference comparator chain written from the shipped docs
+// (ref.go). Plus comparator totality over a value grid.
 package c09
+
+import (
+	"fmt"
+	"os"
+	"sort"
+	"strings"
+	"time"
+
+	"verif/harness/vf"
+)
+
+func init() {
+	vf.Register(&vf.CheckDef{ID: "C09", Level: "model_checking", Run: run,
+		Workers: map[string]vf.WorkerFunc{
+			"verb1":  verb1Worker,
+			"verbN":  verbNWorker,
+			"ladder": ladderWorker,
+			"cli":    cliWorker,
+			"dsl":    dslWorker,
+			"hof":    hofWorker,
+			"swr":    swrWorker,
+			"top":    topWorker,
+			"total":  totalWorker,
+		}})
+}
+
+// ---------------------------------------------------------------- alphabets
+
+// K1: key alphabet for the one-key verb enumeration (the design's 14 symbols
+// plus two hex numbers differing only in letter case).
+func alphaK1() []sym {
+	return []sym{
+		num("1", 1), num("1.0", 1), num("0x1", 1), num("2", 2), num("-3", -3), num("10", 10),
+		str("abc"), str("Abc"), str("ABD"), str("a10"), str("a9"), str(""), str("true"), missingSym,
+		num("0xB", 11), num("0xa", 10),
+	}
+}
+
+// spelling: the tokens that precede the field name on the command line.
+type spelling struct {
+	toks []string
+	k    kind
+}
+
+func (s spelling) String() string { return strings.Join(s.toks, " ") }
+
+// every spelling transformerSortParseCLI accepts (usage text + the two-token
+// forms its comments describe as equivalent)
+var spellings = []spelling{
+	{[]string{"-f"}, kLexA}, {[]string{"-r"}, kLexD},
+	{[]string{"-c"}, kCfA}, {[]string{"-cr"}, kCfD},
+	{[]string{"-nf"}, kNumA}, {[]string{"-nr"}, kNumD},
+	{[]string{"-t"}, kNatA}, {[]string{"-tr"}, kNatD},
+	// index 8.. : alternative spellings
+	{[]string{"-n"}, kNumA}, {[]string{"-n", "-f"}, kNumA}, {[]string{"-n", "-r"}, kNumD},
+	{[]string{"-c", "-r"}, kCfD}, {[]string{"-rt"}, kNatD}, {[]string{"-t", "-r"}, kNatD}, {[]string{"-r", "-t"}, kNatD},
+}
+
+const nCanonicalSpellings = 8 // spellings[0..7]: one per comparator kind
+
+func pow(b, e int) int {
+	r := 1
+	for i := 0; i < e; i++ {
+		r *= b
+	}
+	return r
+}
+
+// decode writes the base-n digits of v (most significant first) into dst.
+func decode(v, n int, dst []int) {
+	for i := len(dst) - 1; i >= 0; i-- {
+		dst[i] = v % n
+		v /= n
+	}
+}
+
+// blocks enumerates all lists of length 0..maxLen over n symbols in
+// length-then-lexicographic order, in blocks of blockSize lists; one Mine index
+// per block.
+func blocks(w *vf.Worker, idx *uint64, n, maxLen, blockSize int, label string, f func(list []int)) {
+	for L := 0; L <= maxLen; L++ {
+		total := pow(n, L)
+		list := make([]int, L)
+		for base := 0; base < total; base += blockSize {
+			*idx++
+			if !w.Mine(*idx) {
+				continue
+			}
+			w.Begin(*idx)
+			b, l := base, L
+			w.Label(func() string { return fmt.Sprintf("%s: lists of length %d, numbers %d..%d", label, l, b, b+blockSize-1) })
+			for v := base; v < total && v < base+blockSize; v++ {
+				decode(v, n, list)
+				f(list)
+			}
+		}
+	}
+}
+
+type counters struct {
+	names []string
+	vals  []int64
+}
+
+func newCounters(names []string) *counters { return &counters{names, make([]int64, len(names))} }
+func (c *counters) flush(w *vf.Worker, prefix string) {
+	for i, v := range c.vals {
+		if v != 0 {
+			w.Count(prefix+c.names[i], v)
+		}
+	}
+}
+
+func flushStats(w *vf.Worker, prefix string, st *orderStats) {
+	w.Count(prefix+"pairs_checked", st.pairs)
+	w.Count(prefix+"pairs_undetermined_by_docs", st.undetermined)
+	w.Count(prefix+"pairs_strict", st.strict)
+	w.Count(prefix+"pairs_tied", st.ties)
+	if st.tieReordered != 0 {
+		w.Count(prefix+"tied_groups_emitted_against_first_appearance(informational)", st.tieReordered)
+	}
+}
+
+func symNames(a []sym) []string {
+	out := make([]string, len(a))
+	for i, s := range a {
+		if s.missing {
+			out[i] = "<absent>"
+		} else if s.text == "" {
+			out[i] = "<empty>"
+		} else {
+			out[i] = s.text
+		}
+	}
+	return out
+}
+
+// ---------------------------------------------------------------- orchestrator
+
+func run(c *vf.Ctx) {
+	c.Rule = "every list of records (length <= L) over a key alphabet x every flag sequence (all 15 spellings for one key, all 8^2 / 8^3 comparator-kind combinations for two / three keys), plus rotation/reversal/interleave permutations of 13..64-group ladders, every array/map (length <= L) over a value alphabet x every flag string / comparator function for the DSL functions, every record shape for sort-within-records, every value list x -n/-a/--min for top, and all ordered triples of a value grid for comparator totality. A case is non-trivial when the documentation determines a strict order for at least one pair of its groups/elements (so that a wrong order is observable); distinct_nontrivial counts such cases (cases are distinct by construction)"
+	c.Assume("sort -b (which rewrites records by design) is checked through the command line only: expected records are the inputs with their sort fields moved to the start; field names are plain ASCII without separators")
+	c.Assume("relative order of booleans, empty values and strings among each other under numeric collation is not asserted (usage says 'nulls sort last', the implementation puts empties before strings; the property only places numbers first); strings among themselves are asserted lexical")
+	c.Assume("order among groups whose keys compare equal but differ in text (1, 1.0, 0x1) is not asserted (sort.Slice is unstable above 12 elements); how often first-appearance order is not kept is reported as an informational counter")
+	c.Assume("natural collation is asserted only where Wikipedia's definition and facette/natsort (both cited by sorting.md) agree: empty strings, digit runs equal in value but not in text, and prefix runs followed by a non-smaller digit are undetermined")
+	c.Assume("the DSL functions sort_by_key and sort_by_value named by the property do not exist in this tree (`mlr help function sort_by_key`: not found); their role is covered by sort(map) / sort(map, \"v...\") and by user comparator functions on keys / values")
+	c.Assume("user comparator functions are exercised with `a <=> b` / `b <=> a` only on homogeneous arrays (all numbers or all non-empty strings) and with a text-length comparator (strlen(string(x))) on all arrays, where their meaning is documented; on mixed arrays only the permutation predicate is asserted")
+	c.Assume("map keys that are hex/inf/nan spellings are excluded from the map-by-key enumeration (whether such a key counts as a number is not documented)")
+	c.Assume("comparator totality is asserted for the lexical, case-folded and numeric comparators on values exactly representable as doubles, NaN excluded; the natural comparators and the DSL <=> operator are measured and reported, not asserted")
+	c.Assume("top: rows beyond the number of available values (void fillers) are not asserted")
+
+	quick := c.Quick()
+	sets := map[string]map[string]bool{}
+	walls := map[string]float64{}
+	only := os.Getenv("VERIF_C09_ONLY") // debugging aid: comma list of pools to run
+	pool := func(name string, shards int) *vf.PoolResult {
+		if only != "" && !strings.Contains(","+only+",", ","+name+",") {
+			c.Exhaustive = false
+			return &vf.PoolResult{Sets: map[string]map[string]bool{}}
+		}
+		t0 := time.Now()
+		r := c.RunPool(vf.PoolSpec{Worker: name, Shards: shards})
+		walls[name] = time.Since(t0).Seconds()
+		return r
+	}
+	merge := func(r *vf.PoolResult) {
+		for k, m := range r.Sets {
+			if sets[k] == nil {
+				sets[k] = map[string]bool{}
+			}
+			for s := range m {
+				sets[k][s] = true
+			}
+		}
+	}
+	merge(pool("total", 16))
+	merge(pool("verb1", 64))
+	merge(pool("verbN", 64))
+	merge(pool("ladder", 32))
+	merge(pool("cli", 32))
+	merge(pool("hof", 32))
+	merge(pool("dsl", 32))
+	merge(pool("swr", 32))
+	merge(pool("top", 64))
+	_ = quick
+	c.Extra["pool_wall_seconds(informational)"] = walls
+
+	// vacuity guards
+	for name, m := range sets {
+		var l []string
+		for s := range m {
+			l = append(l, s)
+		}
+		sort.Strings(l)
+		if len(l) > 200 {
+			c.Extra["set:"+name+":size"] = len(l)
+		} else {
+			c.Extra["set:"+name] = l
+		}
+	}
+	if only != "" {
+		return
+	}
+	// every flag spelling and comparator kind must have been exercised
+	for _, sp := range spellings {
+		if c.Counters["verb1:spelling:"+sp.String()] == 0 {
+			c.Broken("flag spelling %q never exercised", sp.String())
+		}
+		if c.Counters["cli:spelling:"+sp.String()] == 0 {
+			c.Broken("flag spelling %q never exercised through the command line", sp.String())
+		}
+	}
+	for k := kind(0); k < nKinds; k++ {
+		if c.Counters["verbN:kind:"+k.String()] == 0 {
+			c.Broken("comparator kind %v never exercised in a multi-key chain", k)
+		}
+	}
+	for _, s := range symNames(alphaK1()) {
+		if c.Counters["verb1:symbol:"+s] == 0 {
+			c.Broken("alphabet symbol %q never exercised", s)
+		}
+	}
+	if c.DistinctNontrivial < 2 {
+		c.Broken("fewer than 2 non-trivial cases")
+	}
+}
